@@ -18,7 +18,7 @@ RULE = ("Exhaustive: every sequence of length <=3 (thorough <=4) over 39 operati
         "initial pair lists; random sequences of length <=30 over 4 keys x 4 values with the icontract invariant armed on the real class; "
         "constructor forms; query strings with blanks, repeats, '+', %xx, non-ASCII. Non-trivial = a sequence containing at least one mutating "
         "operation applied to a key that has >=1 pair or creating a repeated key; exhaustive sequences are distinct by construction.")
-RULE += " Also: construction from one-shot iterables and from mappings of the other family classes, several mappings built from one list object (aliasing), falsy values ('', 0, None)."
+RULE += " Also: construction from one-shot iterables and from mappings of the other family classes, several mappings built from one list object (aliasing), falsy values ('', 0, None). A key alphabet of None, 0, the letter a and the tuple (a, 1); membership of a (key, value) pair that is not a key."
 ASSUMPTIONS = [
     "the position of a re-assigned key's pair and which key popitem() removes are not pinned (any consistent choice accepted)",
     "update(mapping) assigns the mapping's single value per key (MutableMapping contract)",
@@ -61,7 +61,7 @@ def apply_real(m, op):
         if o == "update_pairs":
             return m.update([(op[1], op[2])])
         if o == "update_kw":
-            return m.update(**{op[1]: op[2]})
+            return m.update(**{op[1]: op[2]}) if isinstance(op[1], str) else m.update({op[1]: op[2]}.items())
         if o == "update_multi":
             return m.update(MultiMapping([("a", 1), ("a", 2)]))
         if o == "del":
@@ -96,8 +96,8 @@ def vals_of(lst, k):
 def check_step(model, real, op, ret):
     """model: pair list before; real: pair list after. Returns (new_model, problem|None)."""
     o = op[0]
-    k = op[1] if len(op) > 1 else None
-    have = vals_of(model, k) if k is not None else None
+    k = op[1] if len(op) > 1 else MISSING
+    have = vals_of(model, k) if k is not MISSING else None
 
     def assigned(model, k, v, real):
         if others(real, k) != others(model, k):
@@ -195,6 +195,13 @@ def views_problem(m, items, keys_alphabet):
                 pass
             if m.get(k, MISSING) is not MISSING:
                 return "get-default"
+    for pair in items[:3]:
+        try:
+            hash(pair)
+        except TypeError:
+            continue
+        if (pair in m) != (pair in last):
+            return "membership-of-a-pair-that-is-not-a-key"
     if dict(m.items()) != last or len(list(m.items())) != len(order):
         return "items"
     if sorted(map(repr, m.values())) != sorted(map(repr, last.values())):
@@ -363,9 +370,13 @@ def run(ctx):
     ops4 = build_ops(keys4, vals4)
     keys5, vals5 = "abc", ("a", "b", 1)  # values that are equal to keys: a pair is (key, value), never "something containing x"
     ops5 = build_ops(keys5, vals5)
+    keys6, vals6 = (None, ("a", 1), 0, "a"), (1, None, "a")  # keys that are falsy, None, or a (key, value)-shaped tuple are keys like any other
+    ops6 = build_ops(keys6, vals6)
     for i in range(ctx.scale(3000, 200_000)):
         if i % 3 == 2:
             keys4, vals4, ops4 = keys5, vals5, ops5
+        elif i % 6 == 1:
+            keys4, vals4, ops4 = keys6, vals6, ops6
         elif i % 3 == 0:
             keys4, vals4 = "abcd", ("", 0, None, "x")
             ops4 = build_ops(keys4, vals4) if i == 0 else ops4a
@@ -400,8 +411,9 @@ def run(ctx):
 def replay(ctx, case):
     if "ops" in case:
         ops = [tuple(tuple(x) if isinstance(x, list) else x for x in op) for op in case["ops"]]
-        init = [tuple(p) for p in case["init"]]
-        run_sequence(ctx, init, ops, "abcd", True)
+        init = [tuple(tuple(x) if isinstance(x, list) else x for x in p) for p in case["init"]]
+        alphabet = list("abcd") + [k for k in (None, ("a", 1), 0) if any(p[0] == k for p in init) or any(len(op) > 1 and op[1] == k for op in ops)]
+        run_sequence(ctx, init, ops, alphabet, True)
     else:
         immutable_views(ctx, [tuple(p) for p in case["pairs"]], None)
     ctx.case(1)
